@@ -145,3 +145,5 @@ func ReformatDescription(input string, maxWidth int) []string {
 func TokenNames() []string { return parser.VerifTokenNames() }
 
 func Operators() map[rune]int { return parser.VerifOperators() }
+
+func MaxValueDepth() int { return parser.VerifMaxValueDepth() }
